@@ -10,55 +10,55 @@ CLAIMED = {
         "technique": "abstract interpretation of the range parsers and validators over order symbols (all weak orderings), token-sequence tables, constant folding",
         "text": "All-input decision of the membership rule (Range/DecimalRange.validate, _item_contains) over every ordering of probe and limits; both constructors decided on every abstract token sequence up to a bound against a reference reading of the grammar incl. overall limits; ellipsis spellings must reach the tokenizer as an emittable operator.",
         "note": "Assumes the Python tokenizer, int(text, 0) and decimal.Decimal behave as documented; constructor tables are bounded in token count (5 quick / 7 thorough).",
-        "design_ref": "DESIGN.md section 3, C01 (and the additions of rounds 3 and 6 to 10 listed below that table)",
+        "design_ref": "DESIGN.md section 3, C01 (and the additions of rounds 3 and 6 to 11 listed below that table)",
     },
     "C02": {
         "technique": "per-type decision tables by abstract interpretation: Integer range selection and value path, Decimal separator translation over character classes, Choice/Constant exactness, DateTime layout table and strptime path, RegEx/Pattern flags and anchoring, length-derived integer range over region representatives, Choice/Constant rule automata",
         "text": "Each field type's decision structure is decided against the statement for all abstract inputs (library calls stubbed with every outcome); the length-derived integer range equals 'text has between lower and upper characters' on every boundary value of every region of (lower, upper).",
         "note": "int(), Decimal(), strptime, re and fnmatch semantics trusted; Decimal strings bounded at 4 (5) characters over 3 classes; create_range_from_length decided through region representatives with an affinity side condition.",
-        "design_ref": "DESIGN.md section 3, C02 (and the additions of rounds 3 and 6 to 10 listed below that table)",
+        "design_ref": "DESIGN.md section 3, C02 (and the additions of rounds 3 and 6 to 11 listed below that table)",
     },
     "C03": {
         "technique": "decision table of the guard template AbstractFieldFormat.validated by abstract interpretation (EMPTY/BLANKS/TEXT x format x flags x per-character verdicts x length orderings) plus override / guard-state / argument-forwarding rules over all field classes",
         "text": "The guard template is decided for every abstract cell, format, flag and collaborator outcome; no shipped field class can bypass it (no override, no re-assignment of guard state, flags forwarded unchanged).",
         "note": "Range.validate semantics are C01's; fixed-width cells wider than their field are not compared (cannot come from the fixed reader).",
-        "design_ref": "DESIGN.md section 3, C03 (and the additions of rounds 3 and 6 to 10 listed below that table)",
+        "design_ref": "DESIGN.md section 3, C03 (and the additions of rounds 3 and 6 to 11 listed below that table)",
     },
     "C04": {
         "technique": "event-trace decision tables of BaseValidator.validate_row and Reader.rows by abstract interpretation with recording collaborators; region-representative table of Location rendering; copy rule for error locations",
         "text": "validate_row decided for every row width, cell kind and collaborator outcome (count check, column order, cursor on the culprit, first failure wins, error names the field and carries a copy of the cursor); cursor line = raw row index for every header/limit ordering; Location renders 1-based.",
         "note": "Per-field and per-check verdicts are C02/C03/C05's; raw readers are C12-C16's.",
-        "design_ref": "DESIGN.md section 3, C04 (and the additions of rounds 3 and 6 to 10 listed below that table)",
+        "design_ref": "DESIGN.md section 3, C04 (and the additions of rounds 3 and 6 to 11 listed below that table)",
     },
     "C05": {
         "technique": "abstract interpretation of IsUniqueCheck / DistinctCountCheck on all row sequences over a two-letter alphabet of equality atoms with one moving location cursor; reset-completeness rule",
         "text": "Duplicate detection over all key fields, located at the later row with see-also at the first occurrence (copy), forgotten by reset; distinct count = number of distinct values, end verdict iff expression false; checks see only fully accepted rows.",
         "note": "eval() of the comparison text is trusted; sequences bounded at 3 rows quick / 4 thorough (alphabet of two values per key field).",
-        "design_ref": "DESIGN.md section 3, C05 (and the additions of rounds 3 and 6 to 10 listed below that table)",
+        "design_ref": "DESIGN.md section 3, C05 (and the additions of rounds 3 and 6 to 11 listed below that table)",
     },
     "C06": {
         "technique": "event-trace decision tables of Reader.rows and validio.rows by abstract interpretation over modes x row outcomes x container faults at every row boundary",
         "text": "Per-row oracle shared by the three modes (same row object returned, own error yielded/raised, counters move exactly once per data row and add up), container faults stop reading in every mode, errors keep copies of the cursor.",
         "note": "Which exceptions the raw readers convert into DataFormatError is C10's escape analysis; 0..3 raw rows per run.",
-        "design_ref": "DESIGN.md section 3, C06 (and the additions of rounds 3 and 6 to 10 listed below that table)",
+        "design_ref": "DESIGN.md section 3, C06 (and the additions of rounds 3 and 6 to 11 listed below that table)",
     },
     "C07": {
         "technique": "abstract interpretation of Reader.rows / validio.rows / validio.validate with header and limit as order symbols (all orderings against raw row numbers)",
         "text": "Row k is skipped iff k <= header, validated iff header < k <= limit, returned unvalidated beyond the limit; validate() stops after limit returned rows and does not start for limit 0.",
         "note": "0..3 raw rows per run; --until mapping decided in C18.",
-        "design_ref": "DESIGN.md section 3, C07 (and the additions of rounds 3 and 6 to 10 listed below that table)",
+        "design_ref": "DESIGN.md section 3, C07 (and the additions of rounds 3 and 6 to 11 listed below that table)",
     },
     "C08": {
         "technique": "typestate 'reset before use per run' decided by abstract interpretation of all operation histories on one CID with recording checks; reset-completeness and no-shared-state rules",
         "text": "All histories of 2 (thorough 3) operations from 10 reader/writer/API operations: every check is reset before its first use in each operation; reset() re-initialises everything a check mutates; no class-level mutable state.",
         "note": "Plugin checks must implement reset() completely.",
-        "design_ref": "DESIGN.md section 3, C08 (and the additions of rounds 3 and 6 to 10 listed below that table)",
+        "design_ref": "DESIGN.md section 3, C08 (and the additions of rounds 3 and 6 to 11 listed below that table)",
     },
     "C09": {
         "technique": "decision tables of Cid.read / add_data_format_row / add_field_format_row / add_check_row / validated_field_name / IsUnique rule parsing by abstract interpretation with stubbed constructors; call-graph rule that every InterfaceError leaving Cid.read is located",
         "text": "Row dispatch, cursor advance, row-order acceptance (every sequence of up to 3 (4) row kinds), field-name alphabet, empty mark, length ladder per format, example validation, duplicate refusal, IsUnique rule automaton; all rejections are InterfaceErrors at the offending row; every reachable InterfaceError raise carries a location or is completed by the field-construction wrapper.",
         "note": "Completeness against an external defect catalogue is not claimed; field/check constructors are C01/C02/C05's.",
-        "design_ref": "DESIGN.md section 3, C09 (and the additions of rounds 3 and 6 to 10 listed below that table)",
+        "design_ref": "DESIGN.md section 3, C09 (and the additions of rounds 3 and 6 to 11 listed below that table)",
     },
     "C10": {
         "technique": "exception-escape fixpoint over the resolved call graph (raise sites, frozen external-raiser table, assert triage, handler lattice) at every API entry point; error-mode token tables of the range constructors",
@@ -70,61 +70,61 @@ CLAIMED = {
         "technique": "decision tables of DataFormat.__init__/set_property/setters/_validated_* and validate by abstract interpretation over format x property x value pools folded from the module's constants; token-kind table of _validated_character; documentation agreement",
         "text": "Every (format, property, value) from the pools is set to the documented internal value or refused with a located InterfaceError, never another exception; defaults as documented; character spellings go through the same helpers as ranges; the three documented contradictions are refused by validate; documented properties and quote characters agree with the code.",
         "note": "Value pools are the module's own constant sets plus representative invalid values; codec names are decided by codecs.lookup.",
-        "design_ref": "DESIGN.md section 3, C11 (and the additions of rounds 3 and 6 to 10 listed below that table)",
+        "design_ref": "DESIGN.md section 3, C11 (and the additions of rounds 3 and 6 to 11 listed below that table)",
     },
     "C12": {
         "technique": "sibling agreement of the csv dialect handed to reader and writer (abstract interpretation with recording csv stubs), decision table of the dialect builder, consistency matrix of DataFormat.validate against the roles a csv dialect can disambiguate, newline='' rule",
         "text": "Reader and writer always get the same dialect derived from the data format; escape=quote -> doublequote, else escapechar; strict on; every accepted configuration keeps item delimiter distinct from quote, from a separate escape character, from CR/LF and from the line delimiter; both file opens use newline=''.",
         "note": "The csv module's quoting/escaping algorithm itself is trusted: round-trip equality is a runtime relation and is NOT decided, only the conditions cutplace must establish for it.",
-        "design_ref": "DESIGN.md section 3, C12 (and the additions of rounds 3 and 6 to 10 listed below that table)",
+        "design_ref": "DESIGN.md section 3, C12 (and the additions of rounds 3 and 6 to 11 listed below that table)",
     },
     "C13": {
         "technique": "abstract interpretation of rowio.fixed_rows (incl. nested delimiter automaton and push-back) on every abstract character stream over the class abstraction {CR, LF, other} up to a length bound; oracle = the statement (identity-tracked reproduction of the input, reference segmentation)",
         "text": "For every stream up to 5 (thorough 7) abstract characters, three width lists and the five delimiter settings: rows have exact widths and reproduce the input with permitted delimiters, or DataFormatError is raised and no well-formed segmentation exists.",
         "note": "Streams bounded in length; under 'any' CR LF is one delimiter (inputs only well-formed when that LF is data are ambiguous and not compared); read(n) semantics of text streams trusted.",
-        "design_ref": "DESIGN.md section 3, C13 (and the additions of rounds 3 and 6 to 10 listed below that table)",
+        "design_ref": "DESIGN.md section 3, C13 (and the additions of rounds 3 and 6 to 11 listed below that table)",
     },
     "C14": {
         "technique": "event-trace decision tables of Writer.__init__/write_row/close and the row writers by abstract interpretation (header orderings, validation outcomes, short/exact fixed cells, declared line delimiters)",
         "text": "Validate before emit past the header, nothing emitted for a rejected row, writer usable afterwards, rows emitted unchanged / right-padded with blanks to the width, lines ended by the declared delimiter, close runs end checks and closes the delegate.",
         "note": "Read-back equality is not decided (composition with C12/C13); 0..3 rows per run.",
-        "design_ref": "DESIGN.md section 3, C14 (and the additions of rounds 3 and 6 to 10 listed below that table)",
+        "design_ref": "DESIGN.md section 3, C14 (and the additions of rounds 3 and 6 to 11 listed below that table)",
     },
     "C15": {
         "technique": "abstract interpretation of rowio.ods_rows on abstract OpenDocument element trees (equality-atom texts, ElementTree API model) covering every ODF construct of the statement, column/row runs, repeat-count faults and sheet selection",
         "text": "For each ODF text construct x column run the cell text read equals the logical text fragment by fragment; broken repeat counts and missing sheets are DataFormatErrors; the requested sheet is read.",
         "note": "ElementTree's own decoding trusted; container faults via C06/C10 escape analysis; known finding F17a (number-rows-repeated ignored).",
-        "design_ref": "DESIGN.md section 3, C15 (and the additions of rounds 3 and 6 to 10 listed below that table)",
+        "design_ref": "DESIGN.md section 3, C15 (and the additions of rounds 3 and 6 to 11 listed below that table)",
     },
     "C16": {
         "technique": "abstract interpretation of rowio.excel_rows on a stubbed multi-sheet workbook, decision table of _excel_cell_value over cell kinds, event trace of XlsxRowWriter",
         "text": "Sheet 'sheet - 1' is read row-major at full width, a missing sheet is a DataFormatError; cell kinds render as documented (dates via datetime, time-only iff date part zero, '.0' stripped for number cells only, booleans 1/0, error texts); the xlsx writer writes strings at (line, cell).",
         "note": "xlrd's cell typing / date conversion, str(float) and xlsxwriter output are trusted.",
-        "design_ref": "DESIGN.md section 3, C16 (and the additions of rounds 3 and 6 to 10 listed below that table)",
+        "design_ref": "DESIGN.md section 3, C16 (and the additions of rounds 3 and 6 to 11 listed below that table)",
     },
     "C17": {
         "technique": "dispatch tables of rowio.auto_rows, Reader._raw_rows and Writer.__init__ by abstract interpretation; construction of every built-in field type under DataFormat objects built by the repository's constructor for each format (attribute availability)",
         "text": "Suffix and format dispatch reach the matching reader/writer with the data format's own settings for every valid format; every field type constructs under every format (no format-specific attribute read unguarded).",
         "note": "Necessary conditions only: equality of verdicts across storage formats is not decided (depends on C12-C16).",
-        "design_ref": "DESIGN.md section 3, C17 (and the additions of rounds 3 and 6 to 10 listed below that table)",
+        "design_ref": "DESIGN.md section 3, C17 (and the additions of rounds 3 and 6 to 11 listed below that table)",
     },
     "C18": {
         "technique": "decision tables of applications.main / process / CutplaceApp.validate / set_options by abstract interpretation over outcome classes of process(), per-file Reader outcomes and --until regions",
         "text": "Exit-code mapping for every outcome class; every list of 0..3 files over {accepted, rejected row, rejected at end, unreadable}: files attempted in order with a fresh Reader on the shared CID, 1 iff some file rejected, unreadable -> EnvironmentError (3); --until regions mapped to the API limit.",
         "note": "argparse behaviour trusted; what the API accepts is C04-C08's; that OSError from the readers stays OSError is part of C10's escape analysis.",
-        "design_ref": "DESIGN.md section 3, C18 (and the additions of rounds 3 and 6 to 10 listed below that table)",
+        "design_ref": "DESIGN.md section 3, C18 (and the additions of rounds 3 and 6 to 11 listed below that table)",
     },
     "C19": {
         "technique": "abstract interpretation of SqlFactory.create_table_statement, IntegerFieldFormat.sql_ansi_type and the four dialect ladders over region representatives at every type boundary (both signs) against a frozen capacity table; folded keyword sets",
         "text": "One column per field in order, dialect keywords quoted, NOT NULL polarity; for all limit pairs from the boundary set the chosen integer/decimal type stores both limits, sizes are digit counts, integer types print no size; decimal/text sizes flow from rule/length.",
         "note": "ANSI int and Oracle int capacity undecided (implementation-defined); known finding F19a (Transact tinyint for negative limits).",
-        "design_ref": "DESIGN.md section 3, C19 (and the additions of rounds 3 and 6 to 10 listed below that table)",
+        "design_ref": "DESIGN.md section 3, C19 (and the additions of rounds 3 and 6 to 11 listed below that table)",
     },
     "C20": {
         "technique": "call-protocol event traces decided by abstract interpretation of validated / validate_row / Reader.rows / rows / validate / close / Writer with recording plugins; class-resolution tables",
         "text": "Hook only for non-empty, allowed, in-length cells; columns in order, stop at first rejection; checks in declaration order after all cells passed; one reset before the first row; no calls outside the header/limit window; end verdicts once in order then cleanup; plugins resolve like built-ins.",
         "note": "Plugins subclass the abstract bases directly; plugin code itself is not analysed.",
-        "design_ref": "DESIGN.md section 3, C20 (and the additions of rounds 3 and 6 to 10 listed below that table)",
+        "design_ref": "DESIGN.md section 3, C20 (and the additions of rounds 3 and 6 to 11 listed below that table)",
     },
 }
 
